@@ -279,7 +279,7 @@ def task(prop, seed, size, cfgbins):
 
 def run(prop, tier, seed, t0):
     from .. import plan
-    cfgs = plan.ALL_CFGS + ['simd-legacy']
+    cfgs = plan.ALL_CFGS + ['simd-legacy', 'simd-notables', 'serial64-notables']
     bins, notes, failed = plan.bins_for(cfgs, ('rel', 'chk') if tier == 'quick' else ('rel', 'chk'))
     if failed:
         return plan.fail_build(prop, failed)
